@@ -33,6 +33,45 @@ def documented_table(run, r):
     return table
 
 
+def rules_delivery(run, P='C10', rid='.3'):
+    prog = run.prog
+    ri = run.fn('Interpreter._raise_event')
+    R = ri.node
+    evp = q.param_names(R)[1]
+    r = run.rule(P + rid, 'delivery: a MetaEvent is handed to every element of _listeners once, in list order, no filter, no early exit; attach appends, detach removes')
+    loops = [n for n in q.walk(R, False) if isinstance(n, ast.For) and dotted(strip_cast(n.iter)) == 'self._listeners']
+    run.check(len(loops) == 1, r, ri.short, 'single delivery loop over self._listeners', 'found %d' % len(loops), R)
+    for lp in loops:
+        lv = lp.target.id if isinstance(lp.target, ast.Name) else '?'
+        body_calls = [c for c in q.calls(lp) if isinstance(c.func, ast.Name) and c.func.id == lv]
+        run.check(len(body_calls) == 1 and len(lp.body) == 1 and not guards(body_calls[0], stop=lp), r, ri.short, 'each listener called exactly once, unconditionally',
+                  'delivery is filtered or repeated', lp)
+        for c in body_calls:
+            run.check(len(c.args) == 1 and obj_is(c.args[0], evp), r, ri.short, 'listener receives the meta-event itself', 'argument differs', c)
+        run.check(not any(isinstance(x, (ast.Break, ast.Return, ast.Continue, ast.Try)) for x in ast.walk(lp)), r, ri.short, 'no early exit / handler in the delivery loop',
+                  'delivery can stop before every listener was called', lp)
+        at = guard_atoms(lp)
+        good = ('truthy', 'isinstance(%s, MetaEvent)' % evp, '') in at and all(a[0] == 'falsy' and 'InternalEvent' in a[1] or a == ('truthy', 'isinstance(%s, MetaEvent)' % evp, '') for a in at)
+        run.check(good, r, ri.short, 'delivery exactly for MetaEvent instances', 'delivery condition is %s' % at, lp)
+    for name, meth in (('Interpreter.attach', 'append'), ('Interpreter.detach', 'remove')):
+        m = run.fn(name)
+        cs = [c for c in q.calls(m.node) if q.unparse(c.func) == 'self._listeners.' + meth]
+        p = q.param_names(m.node)[1]
+        run.check(len(cs) == 1 and obj_is(cs[0].args[0], p) and not guards(cs[0]) and len([c for c in q.calls(m.node) if 'self._listeners' in q.unparse(c.func)]) == 1, r, name,
+                  '%s does _listeners.%s(listener)' % (name.split('.')[1], meth), 'registration differs', m.node)
+    nw = 0
+    for fi in prog.functions():
+        if fi.outer is not None:
+            continue
+        for c, fld, kind, node in prog.direct_writes(fi):
+            if fld == '_listeners' and c == 'Interpreter':
+                nw += 1
+                run.check(fi.short in ('Interpreter.__init__', 'Interpreter.attach', 'Interpreter.detach'), r, fi.short, 'write:_listeners ' + kind,
+                          'listener list modified outside attach/detach', node)
+    run.floor(nw, 3, r, 'writers of _listeners')
+
+
+
 def check(run):
     prog = run.prog
     r = run.rule('C10.1', 'emission table = documented table (names and attributes)')
@@ -134,37 +173,7 @@ def check(run):
 
     from . import c05
     c05.rules_send(run, 'C10', '.7')
-    r = run.rule('C10.3', 'delivery: a MetaEvent is handed to every element of _listeners once, in list order, no filter, no early exit; attach appends, detach removes')
-    loops = [n for n in q.walk(R, False) if isinstance(n, ast.For) and dotted(strip_cast(n.iter)) == 'self._listeners']
-    run.check(len(loops) == 1, r, ri.short, 'single delivery loop over self._listeners', 'found %d' % len(loops), R)
-    for lp in loops:
-        lv = lp.target.id if isinstance(lp.target, ast.Name) else '?'
-        body_calls = [c for c in q.calls(lp) if isinstance(c.func, ast.Name) and c.func.id == lv]
-        run.check(len(body_calls) == 1 and len(lp.body) == 1 and not guards(body_calls[0], stop=lp), r, ri.short, 'each listener called exactly once, unconditionally',
-                  'delivery is filtered or repeated', lp)
-        for c in body_calls:
-            run.check(len(c.args) == 1 and obj_is(c.args[0], evp), r, ri.short, 'listener receives the meta-event itself', 'argument differs', c)
-        run.check(not any(isinstance(x, (ast.Break, ast.Return, ast.Continue, ast.Try)) for x in ast.walk(lp)), r, ri.short, 'no early exit / handler in the delivery loop',
-                  'delivery can stop before every listener was called', lp)
-        at = guard_atoms(lp)
-        good = ('truthy', 'isinstance(%s, MetaEvent)' % evp, '') in at and all(a[0] == 'falsy' and 'InternalEvent' in a[1] or a == ('truthy', 'isinstance(%s, MetaEvent)' % evp, '') for a in at)
-        run.check(good, r, ri.short, 'delivery exactly for MetaEvent instances', 'delivery condition is %s' % at, lp)
-    for name, meth in (('Interpreter.attach', 'append'), ('Interpreter.detach', 'remove')):
-        m = run.fn(name)
-        cs = [c for c in q.calls(m.node) if q.unparse(c.func) == 'self._listeners.' + meth]
-        p = q.param_names(m.node)[1]
-        run.check(len(cs) == 1 and obj_is(cs[0].args[0], p) and not guards(cs[0]) and len([c for c in q.calls(m.node) if 'self._listeners' in q.unparse(c.func)]) == 1, r, name,
-                  '%s does _listeners.%s(listener)' % (name.split('.')[1], meth), 'registration differs', m.node)
-    nw = 0
-    for fi in prog.functions():
-        if fi.outer is not None:
-            continue
-        for c, fld, kind, node in prog.direct_writes(fi):
-            if fld == '_listeners' and c == 'Interpreter':
-                nw += 1
-                run.check(fi.short in ('Interpreter.__init__', 'Interpreter.attach', 'Interpreter.detach'), r, fi.short, 'write:_listeners ' + kind,
-                          'listener list modified outside attach/detach', node)
-    run.floor(nw, 3, r, 'writers of _listeners')
+    rules_delivery(run, 'C10', '.3')
 
     r = run.rule('C10.4', 'fail-fast: the property listener queues the meta-event, executes the property interpreter and raises PropertyStatechartError when it '
                           'is final, on every path; no handler can intercept it')
